@@ -53,17 +53,40 @@ def run_case(case):
     plan = {'default': ca_cfg}
     hp = {'exit': {}}
     if case.get('fail_at') is not None:
-        hp['exit']['h_chal'] = [0] * case['fail_at'] + [case['fail_code']]
+        hp['exit'][case.get('fail_hook', 'h_chal')] = [0] * case['fail_at'] + [case['fail_code']]
 
     def cfg(d, ca):
         with open(d + '/hookplan.json', 'w') as f:
             json.dump(hp, f)
-        hooks = [C.rec_hook('h_chal', ['challenge-http-01', 'challenge-dns-01', 'challenge-tls-alpn-01'], d + '/hooks.log', plan=d + '/hookplan.json'),
-                 C.rec_hook('h_other', [t for t in C.ALL_HOOK_TYPES if t not in ('challenge-http-01', 'challenge-dns-01', 'challenge-tls-alpn-01')], d + '/hooks.log')]
-        return S.std_config(d, ca, [{'name': 'c0', 'identifiers': [e for e, _, _ in idents], 'hooks': ['h_chal', 'h_other']}],
-                            accounts=[{'name': 'acc1', 'key_type': case['acc_key'], 'hooks': ['h_other']}], extra_hooks=hooks)
-    want_attempts = 2
-    run = S.run_scenario('C05', 's%d' % case['i'], cfg, plan, S.n_postops(want_attempts), timeout=90, settle=0)
+        chal_types = ['challenge-http-01', 'challenge-dns-01', 'challenge-tls-alpn-01']
+        hooks = [C.rec_hook('h_chal', chal_types, d + '/hooks.log', plan=d + '/hookplan.json'),
+                 C.rec_hook('h_chal2', chal_types, d + '/hooks.log', plan=d + '/hookplan.json'),
+                 C.rec_hook('h_other', [t for t in C.ALL_HOOK_TYPES if t not in chal_types], d + '/hooks.log')]
+        idl = []
+        for k, (e, _, _) in enumerate(idents):
+            e = dict(e)
+            if case.get('odd_case') and k % 2 == 0:
+                # challenge names are accepted in any letter case
+                e['challenge'] = e['challenge'].upper() if k % 4 == 0 else e['challenge'].title()
+            idl.append(e)
+        return S.std_config(d, ca, [{'name': 'c0', 'identifiers': idl, 'hooks': ['h_chal', 'h_chal2', 'h_other']}],
+                            accounts=[{'name': 'acc1', 'key_type': key_now[0], 'hooks': ['h_other']}], extra_hooks=hooks)
+    key_now = [case['acc_key']]
+
+    def po_count(n):
+        return lambda hooks, log: len([h for h in hooks if C.hook_event(h) == 'post-operation']) >= n
+    phases = [{'cfg': cfg, 'stop': po_count(2), 'timeout': 90, 'settle': 0}]
+    if case.get('key_change'):
+        # the account key type is edited and the daemon restarted: the proofs of that run must use the new key's thumbprint
+        def switch(d, ca):
+            key_now[0] = case['key_change']
+            try:
+                os.remove(d + '/certs/c0_ecdsa-p256.crt.pem')
+            except OSError:
+                pass
+        phases.append({'cfg': cfg, 'before': switch, 'stop': po_count(1), 'timeout': 90, 'settle': 0,
+                       'plan': {'default': dict(ca_cfg, lifetimes_s=[LONG])}})
+    run = S.run_phases('C05', 's%d' % case['i'], phases, plan0=plan)
     res = {'case': case, 'problems': [], 'hooks_checked': 0, 'posts_checked': 0, 'authz_seen': {}, 'wild_authz': 0}
     try:
         pb = res['problems']
@@ -81,6 +104,21 @@ def run_case(case):
         # current account thumbprint from the CA account table (single account)
         accs = ((run.state.get('cas') or {}).get('ca1') or {}).get('accounts') or []
         thumb = accs[0]['thumbprint'] if accs else None
+        # thumbprint on record at a given instant: from the newAccount / keyChange exchanges
+        key_events = []
+        for r in run.ca_log:
+            ex = r.get('extra') or {}
+            if r.get('kind') == 'newAccount' and r.get('status') in (200, 201) and r.get('jwk_thumb'):
+                key_events.append((r['t_recv'], r['jwk_thumb']))
+            elif r.get('kind') == 'keyChange' and r.get('status') == 200 and (ex.get('key_change') or {}).get('new_thumb'):
+                key_events.append((r['t_recv'], ex['key_change']['new_thumb']))
+
+        def thumb_at(t):
+            cur = None
+            for tt, th in key_events:
+                if tt <= t:
+                    cur = th
+            return cur
         # proof -> (authz id, type)
         proof_map = {}
         for ai, a in authz.items():
@@ -88,8 +126,10 @@ def run_case(case):
             if a.get('wildcard'):
                 res['wild_authz'] += 1
             for c in a['challenges']:
-                if thumb:
-                    ev = expected_vars(c['type'], c['token'], thumb)
+                # the key the CA had on record when this authorization's challenge was answered (key roll-overs change it)
+                th = thumbs.get(ai) or thumb_at(a['t']) or thumb
+                if th:
+                    ev = expected_vars(c['type'], c['token'], th)
                     proof_map.setdefault((c['type'], ev['proof']), []).append((ai, c['type'], c['token']))
         chal_hooks = [h for h in run.hooks if C.hook_event(h).startswith('challenge-') and not C.hook_event(h).endswith('-clean')]
         hooks_by_authz = {}
@@ -113,7 +153,7 @@ def run_case(case):
             ai, ctype, token = max(earlier or cands, key=lambda x: authz[x[0]]['t'])
             a = authz[ai]
             hooks_by_authz.setdefault(ai, []).append(h)
-            ev = expected_vars(ctype, token, thumb)
+            ev = expected_vars(ctype, token, thumbs.get(ai) or thumb_at(a['t']) or thumb)
             for var in ('file_name', 'raw_proof'):
                 if (kv.get(var) or '') != ev[var]:
                     pb.append(('variables', '%s hook for %s: %s is %r, expected %r' % (ctype, a['identifier'], var, kv.get(var), ev[var])))
@@ -152,9 +192,9 @@ def run_case(case):
             before = [h for h in hs if h['t_end'] <= r['t_recv']]
             if not before:
                 pb.append(('post-before-hook', 'challenge %s of %s declared ready %.1f ms before its hook ended' % (ch['type'], ch['identifier'], (min(h['t_end'] for h in hs) - r['t_recv']) / 1e6)))
-            last = max(before or hs, key=lambda h: h['t_end'])
-            if last.get('exit') not in (0, None):
-                pb.append(('post-after-failed-hook', 'challenge %s of %s declared ready although its hook exited %s' % (ch['type'], ch['identifier'], last.get('exit'))))
+            failed = [h for h in (before or hs) if h.get('exit') not in (0, None)]
+            if failed:
+                pb.append(('post-after-failed-hook', 'challenge %s of %s declared ready although its hook %s exited %s' % (ch['type'], ch['identifier'], failed[0]['hook'], failed[0].get('exit'))))
         if res['problems']:
             res['replay_dir'] = run.dir
         return res
@@ -215,10 +255,14 @@ def gen(tier, r):
         elif k == 7:
             case['fail_at'] = r.randint(0, max(0, len(idents) - 1))
             case['fail_code'] = r.choice([1, 2, 255, 'signal', 'signal'])
+            case['fail_hook'] = r.choice(['h_chal', 'h_chal', 'h_chal2'])
         elif k == 8:
             # the configured type is not offered at all for one identifier
             e, (kind, v), ch = r.choice(idents)
             case['types_by_id'] = {v: [c for c in chal if c != ch]}
+        if k == 1:
+            case['key_change'] = [t for t in ('ecdsa_p384', 'ed25519', 'ecdsa_p256', 'rsa2048') if t != case['acc_key']][i % 3]
+        case['odd_case'] = (i % 5 == 2)
         cases.append(case)
     return cases
 
